@@ -30,6 +30,8 @@ for d in sorted(glob.glob(ROOT + "/seeded/*/")):
                 det.append({"check": c, "line": "MACHINERY-ERROR " + p.stdout[-300:]})
     finally:
         subprocess.run("git -C /repo checkout -- . && git -C /repo clean -fdq", shell=True)
+        # evidence files written while a seeded change was applied describe the changed tree: put the committed ones back
+        subprocess.run(f"git -C {ROOT} checkout -- evidence", shell=True)
     meta["detected_by"] = det
     json.dump(meta, open(d + "meta.json", "w"), indent=1)
     print(name, "->", [x["check"] + (" (no-failing-input)" if "no-failing-input-found" in x["line"] else "") + (" !!MACHINERY-ERROR" if x["line"].startswith("MACHINERY") else "") for x in det] or "MISSED")
